@@ -401,6 +401,26 @@ def _check_grid_dual(m, fails, tag):
     if d.n_node != m["n_face"]:
         fail("dual_node_count", "number of dual nodes differs from the number of primal faces", int(d.n_node), m["n_face"])
         return n_case, d
+    # ---- the dual is a grid in its own right: its node -> face table lists, for every dual node, exactly the dual faces having it as
+    #      a corner (in the dual's OWN face numbering)
+    n_case += 1
+    try:
+        dnf = np.asarray(d.node_face_connectivity.values)
+        bad = None
+        for v in range(int(d.n_node)):
+            want = sorted(int(f) for f in range(conn.shape[0]) if v in [int(x) for x in conn[f] if x != FILL])
+            got = sorted(int(x) for x in (dnf[v] if v < dnf.shape[0] else []) if x != FILL)
+            if got != want:
+                bad = (v, got, want)
+                break
+        if dnf.shape[0] != int(d.n_node):
+            bad = ("rows", int(dnf.shape[0]), int(d.n_node))
+        if bad is not None:
+            fail("dual_grid_incidence", "node_face_connectivity of the dual grid does not list, for a dual node, the dual faces that have it "
+                 "as a corner", {"dual_node": bad[0], "listed": bad[1]}, bad[2])
+    except Exception as e:  # noqa: BLE001
+        fail(f"exception_{type(e).__name__}:dual_grid_incidence", f"node_face_connectivity of the dual grid raised {type(e).__name__}: {e}"[:300],
+             "exception", "a table")
     # ---- dual node i at primal face centre i
     n_case += 1
     dx, dy, dz = mg.xyz_of(np.asarray(d.node_lon.values, float), np.asarray(d.node_lat.values, float))
